@@ -30,6 +30,8 @@ var hostAlpha = []hostClass{
 	{"example.com", true}, {"sub.example.com", true}, {"*.example.com", true},
 	{"", false}, {"localhost", false}, {"a.localhost", false}, {"127.0.0.1", false}, {"10.0.0.1", false}, {"192.168.1.1", false}, {"[::1]", false},
 	{"a.local", false}, {"a.test", false}, {"a.example", false}, {"a.invalid", false},
+	// deeper names and wildcards under the internal-only suffixes
+	{"app.staging.test", false}, {"www.shop.example", false}, {"a.b.c.invalid", false}, {"*.dev.test", false}, {"x.y.localhost", false}, {"a.b.local", false},
 }
 
 type tlsLine struct {
@@ -111,7 +113,7 @@ func must(err error) {
 
 func main() {
 	rep := kit.NewReport("C15", "exploration",
-		"every single site and every pair (thorough: triples over a reduced alphabet) of site addresses over scheme {none, http://, https://} x 14 host classes x port {none, 80, 443, 8080} x 7 tls lines, loaded through the real Casketfile path including the real tls parsing callback with certmagic storage pre-seeded; per-site Managed/Enabled flags compared with the statement's conjunction, redirect sites enumerated and queried with 4 URIs x 2 Host forms; distinct_nontrivial = outcome classes")
+		"every single site and every pair (thorough: triples over a reduced alphabet) of site addresses over scheme {none, http://, https://} x 20 host classes x port {none, 80, 443, 8080} x 9 tls lines (one or two tls lines per site), loaded through the real Casketfile path including the real tls parsing callback with certmagic storage pre-seeded; per-site Managed/Enabled flags compared with the statement's conjunction, redirect sites enumerated and queried with 4 URIs x 2 Host forms; distinct_nontrivial = outcome classes")
 	kit.Init()
 	kit.Log.Off.Store(true)
 	dir := kit.TempDir("c15")
@@ -126,6 +128,15 @@ func main() {
 	seed(dir, names)
 	ca := kit.NewCA("manual")
 	certF, keyF := ca.WriteLeaf(dir, "manual", 7, "manual.test", []string{"manual.test", "example.com", "sub.example.com"})
+	bundleDir := filepath.Join(dir, "bundles")
+	{
+		c, err1 := os.ReadFile(certF)
+		k, err2 := os.ReadFile(keyF)
+		if err1 != nil || err2 != nil {
+			rep.Broken("certificate fixture: %v %v", err1, err2)
+		}
+		kit.WriteFile(bundleDir, "manual.pem", string(c)+string(k))
+	}
 	tlsLines := []tlsLine{
 		{name: "none"},
 		{name: "off", line: "tls off", disablesManaged: true, off: true},
@@ -134,6 +145,9 @@ func main() {
 		{name: "manual", line: "tls " + certF + " " + keyF, disablesManaged: true, enablesTLS: true},
 		{name: "email2", line: "tls x@y.z", enablesTLS: true},
 		{name: "no_redirect", line: "tls {\n\t\tno_redirect\n\t}", noRedirect: true, enablesTLS: true},
+		// a site's own certificate followed by a second tls line that only sets options
+		{name: "manual+options", line: "tls " + certF + " " + keyF + "\n\ttls {\n\t\tprotocols tls1.2 tls1.3\n\t}", disablesManaged: true, enablesTLS: true},
+		{name: "load-dir+options", line: "tls {\n\t\tload " + bundleDir + "\n\t}\n\ttls {\n\t\tprotocols tls1.2 tls1.3\n\t}", disablesManaged: true, enablesTLS: true},
 	}
 	var addrs []addrSpec
 	for _, sc := range []string{"", "http://", "https://"} {
